@@ -111,6 +111,32 @@ type SimDA struct {
 	Stats map[string]int
 	// Probe, if set, is evaluated at every submit call and stored in the call record.
 	Probe func() [2]uint64
+
+	// spin guard: a caller that issues thousands of calls without simulated time passing is busy-looping.
+	// Its calls are then parked until its context ends, so that the bubble can quiesce and the harness
+	// can report what the call log shows.
+	spinAt    time.Time
+	spinCount int
+	Overrun   bool
+}
+
+// spinGuard must be called without d.mu held. It parks a busy-looping caller.
+func (d *SimDA) spinGuard(ctx context.Context) {
+	d.mu.Lock()
+	now := time.Now()
+	if now.Equal(d.spinAt) {
+		d.spinCount++
+	} else {
+		d.spinAt, d.spinCount = now, 0
+	}
+	over := d.spinCount > 3000
+	if over {
+		d.Overrun = true
+	}
+	d.mu.Unlock()
+	if over {
+		<-ctx.Done()
+	}
 }
 
 func NewSimDA() *SimDA {
@@ -231,6 +257,7 @@ func (d *SimDA) NumCalls() int {
 }
 
 func (d *SimDA) submit(ctx context.Context, by string, epoch int, blobs [][]byte, fence *Fence) ([][]byte, error) {
+	d.spinGuard(ctx)
 	if err := ctx.Err(); err != nil {
 		return nil, err
 	}
@@ -346,6 +373,7 @@ func (d *SimDA) submit(ctx context.Context, by string, epoch int, blobs [][]byte
 }
 
 func (d *SimDA) getIDs(ctx context.Context, by string, epoch int, height uint64) (*coreda.GetIDsResult, error) {
+	d.spinGuard(ctx)
 	if err := ctx.Err(); err != nil {
 		return nil, err
 	}
